@@ -114,6 +114,11 @@ typedef struct {
 void op_exec(const opdef_t* o, const env_t* env, uint64_t seed, int prefill, unsigned mis, unsigned monitors, opres_t* res);
 // runs the named catalogue entries from T threads at once on private data (shared environment) and compares every
 // result with the same call executed alone; returns the number of differing calls (message of the first in msg)
+// fresh-process reference: pristine_start() must be called before the process has called anything of the library;
+// pristine_query returns 0 (hash filled), 1 (the plan skips this call), 2 (the fresh call died) or -1 (no server)
+void pristine_start(void);
+int pristine_query(int op, uint64_t N, int native, uint64_t seed, int prefill, unsigned mis, uint64_t* hash);
+void pristine_stop(void);
 void ops_concurrent_case(const char* key, const char* const* names, int nnames, uint64_t N, int cfg, int T, unsigned rep, const char* counter);
 uint64_t ops_concurrent_check(const char* const* names, int nnames, const env_t* env, int T, int iters, uint64_t seed, char* msg, size_t msglen, uint64_t* calls);
 // counts of memcheck definedness failures observed by MON_VALGRIND (process-wide)
